@@ -229,6 +229,36 @@ def analyse_job(job):
             if job.get("override"):
                 j = getattr(ops, job["override"])
             v, detail, rule, wit = j(ctx, inst, S)
+            if v == REFUTED and prop:
+                # a listed finding must not hide a different violation of the same instance: search again
+                # with the finding's inputs excluded
+                import common as _cm
+                kf = _cm.match_known(prop, dict(key, detail=detail or "", rule=rule or "",
+                                               witness=json.dumps(wit, sort_keys=True)))
+                if kf and kf.get("avoid_inputs"):
+                    av = kf["avoid_inputs"]
+                    old_ok = getattr(inst, "env_ok", None)
+
+                    def ok2(vals, names, av=av, old_ok=old_ok, vt=vt):
+                        if old_ok is not None:
+                            r0 = old_ok(vals, names)
+                            if not r0:
+                                return r0
+                        for nm, bad in av.items():
+                            if nm in names:
+                                x = vals[names.index(nm)]
+                                lanes = [(x >> (i * vt.eb)) & ((1 << vt.eb) - 1) for i in range(max(1, x.bit_length() // vt.eb + 1))]
+                                if any(int(b, 16) in lanes for b in bad):
+                                    return False
+                        return True
+                    inst.env_ok = ok2
+                    try:
+                        v2, d2, r2, w2 = j(ctx, inst, S)
+                    finally:
+                        inst.env_ok = old_ok
+                    if v2 == REFUTED and not _cm.match_known(prop, dict(key, detail=d2 or "", rule=r2 or "",
+                                                                         witness=json.dumps(w2, sort_keys=True))):
+                        v, detail, rule, wit = v2, d2, r2, w2
         except Broken:
             raise
         except T.TooBig as e:
